@@ -121,3 +121,7 @@ class Tolerancing:
 
         for compensator in self.compensator.variables:
             compensator.reset()
+
+        # pickups and solves follow the restored values again (the
+        # compensator optimiser re-applies them on every evaluation)
+        self.optic.update()
